@@ -217,18 +217,23 @@ func (d *Document) GetPageSettings() *PageSettings {
 		width := twipsToMM(parseFloat(sectPr.PageSize.W))
 		height := twipsToMM(parseFloat(sectPr.PageSize.H))
 
-		// 判断是否为预定义尺寸
-		settings.Size = identifyPageSize(width, height)
-		if settings.Size == PageSizeCustom {
-			settings.CustomWidth = width
-			settings.CustomHeight = height
-		}
-
 		// 设置方向
 		if sectPr.PageSize.Orient == string(OrientationLandscape) {
 			settings.Orientation = OrientationLandscape
 		} else {
 			settings.Orientation = OrientationPortrait
+		}
+
+		// 判断是否为预定义尺寸
+		settings.Size = identifyPageSize(width, height)
+		if settings.Size == PageSizeCustom {
+			// SetPageSettings 在横向时写入的是交换后的宽高，读取时换回来，
+			// 使读出的设置再次写入时得到同样的页面
+			if settings.Orientation == OrientationLandscape {
+				width, height = height, width
+			}
+			settings.CustomWidth = width
+			settings.CustomHeight = height
 		}
 	}
 
